@@ -14,6 +14,15 @@ pub struct SendDispatcher<'a> {
 }
 
 impl SendDispatcher<'_> {
+    /// Verification hook: the plan that is really executed.
+    #[cfg(feature = "verif-hooks")]
+    pub fn verif_layout(&self) -> crate::dispatch::VerifLayout {
+        crate::dispatch::VerifLayout {
+            stages: self.stages.iter().map(|s| s.verif_layout()).collect(),
+            thread_local: Vec::new(),
+        }
+    }
+
     /// Sets up all the systems which means they are gonna add default values
     /// for the resources they need.
     pub fn setup(&mut self, world: &mut World) {
